@@ -1,0 +1,49 @@
+//! Verification hooks (feature `verif`, off by default): a thread-local sink that records, for every
+//! `LuaParser::parse` on this thread while recording is on, the lexer tokens, the mark-event stream
+//! handed to the tree builder and the token index at every iteration of the `parse_chunk` loop.
+//! Nothing here changes parser behaviour.
+use std::cell::RefCell;
+
+pub use crate::parser::MarkEvent;
+use crate::lexer::LuaTokenData;
+
+#[derive(Debug, Clone, Default)]
+pub struct ParseRecord {
+    /// lexer output as seen by the parser when `parse_chunk` returned
+    pub tokens: Vec<LuaTokenData>,
+    /// the event stream that `LuaTreeBuilder::build` consumes
+    pub events: Vec<MarkEvent>,
+    /// `current_token_index()` at the top of every `parse_chunk` loop iteration
+    pub chunk_loop: Vec<usize>,
+}
+
+thread_local! {
+    static SINK: RefCell<Option<ParseRecord>> = const { RefCell::new(None) };
+}
+
+/// Start recording the next parse on this thread (drops a previous unfinished record).
+pub fn start_recording() {
+    SINK.with(|s| *s.borrow_mut() = Some(ParseRecord::default()));
+}
+
+/// Stop recording and return what was recorded.
+pub fn take_recording() -> Option<ParseRecord> {
+    SINK.with(|s| s.borrow_mut().take())
+}
+
+pub(crate) fn record_chunk_loop(token_index: usize) {
+    SINK.with(|s| {
+        if let Some(r) = s.borrow_mut().as_mut() {
+            r.chunk_loop.push(token_index);
+        }
+    });
+}
+
+pub(crate) fn record_parse(tokens: &[LuaTokenData], events: &[MarkEvent]) {
+    SINK.with(|s| {
+        if let Some(r) = s.borrow_mut().as_mut() {
+            r.tokens = tokens.to_vec();
+            r.events = events.to_vec();
+        }
+    });
+}
